@@ -23,17 +23,17 @@ CHECKS = {
          "who-may-call + dominance + sibling pairing + accept-formula equivalence"),
  "C07": ("other", "Panic ledger over ~890 reachable functions: P1 explicit panics, P2 333 string-slice sites incl. get(range).unwrap() and split_at (char boundary + constant-bound length guard), P2b end bound `t + c` dominated by a length test, P7 no character count (chars().enumerate / position / count, also through crate functions returning one) reaches a byte-offset bound, P3 unwrap/expect sites, P4 constant and guard-related non-constant vector indices, P5 every recursion cycle reviewed, P6 loop progress (every path back to a while condition touches what it reads), G8 sequence loops consume or leave. Run time and relational byte offsets of string slices are not decided.", "§4 C07, §7",
          "path-sensitive abstract interpretation (length lower bounds, ASCII-ness, boundary positions, callee summaries) over structured HIR"),
- "C08": ("translation_validation", "JSON surface read from the generated serde code: J1 key uniqueness incl. flattened enums, J2 serialiser keys = deserialiser key table and hand-written key/value provenance, J4 untagged distinguishability, J5 skip symmetry, J6 ordered containers, J7 custom codec symmetry (serialize_with / with on both sides), J8 the publish cleaner selects by nullness / emptiness only, T3 date codec symmetry, T4 no hand-written range guard cuts into a clock / calendar component's range, D1 plugin tables, N1 finite numbers. Value equality after the JSON round trip is not decided.", "§4 C08",
+ "C08": ("translation_validation", "JSON surface read from the generated serde code: J1 key uniqueness incl. flattened enums, J2 serialiser keys = deserialiser key table and hand-written key/value provenance, J4 untagged distinguishability, J5 skip symmetry and omission predicate, J6 ordered containers, J7 custom codec symmetry (serialize_with / with on both sides), J8 the publish cleaner selects by nullness / emptiness only, T3 date codec symmetry, T4 no hand-written range guard cuts into a clock / calendar component's range, D1 plugin tables, N1 finite numbers. Value equality after the JSON round trip is not decided.", "§4 C08",
          "extraction of key tables from derive-expanded HIR + set comparison + def-use tracing"),
  "C09": ("other", "G6 mandatory model field <-> mandatory step with that tag, D1 parser type literal = message_type(), G2 anchored extraction, G3 no discarded error, EP error payload dataflow on the MessageParser constructor sites (through constructor helpers), MO minimum-occurrence checks at their loop depth (followed into per-repetition helpers), G1 unexpected trailing field reported, U6/U7 accept conditions and delivered values of the MessageParser primitives = reference, U8 per primitive and ParseError variant the condition under which it is returned = reference, G11 step order = reference layout. Which error wins is not decided.", "§4 C09",
          "kind agreement + def-use tracing of error payloads + formula equivalence"),
- "C10": ("other", "H1 block-3/5 tag sets parse vs Display, H3 stored components written or derived + I/O direction dispatch, H4 emission order follows parse offsets, H2 assembly order and sources (from the emission template), U3 over-long header rejected, U6/U7/E1 accept conditions, stored components (incl. field assignments) and emission templates of header parsers, extract_block and the assembly = reference. Independence of block location from value characters is not decided in general.", "§4 C10",
+ "C10": ("other", "H1 block-3/5 tag sets parse vs Display, H3 stored components written or derived + I/O direction dispatch, H4 emission order follows parse offsets, H5 each header parser is fed from the block with its own index, H2 assembly order and sources (from the emission template), U3 over-long header rejected, U6/U7/E1 accept conditions, stored components (incl. field assignments) and emission templates of header parsers, extract_block and the assembly = reference. Independence of block location from value characters is not decided in general.", "§4 C10",
          "literal-set / offset-order comparison of sibling functions + formula equivalence"),
  "C11": ("other", "T1 single century rule (who-may-call on chrono date constructors, census of century arithmetic, pivot), T2 validator reachability and rendering pattern per date/time-bearing field type, T3 JSON date codec symmetry, T4 hand-written range guards on values handed to chrono constructors do not reject values inside the component's range, U6/U7/E1 accept conditions, stored values and emission templates of date/time validators and fields = reference. Reduces the 10^6-string claim to parse_date_yymmdd + chrono, which are read, not proved.", "§4 C11",
          "who-may-call / must-call analysis, literal census and formula equivalence"),
  "C12": ("translation_validation", "All seven 30-way dispatch tables compared cell by cell with the 30 impl SwiftMessageBody (key literal, variant, generic arguments, callee, receiver type, returned literal): bijection, wildcard = unsupported error, wrapper enum accessors and serde tags, a guarded catch-all arm is a finding, T03 mismatch test dominates the typed block-4 parse, U6 the block locator (extract_block) = reference, D2 every consumer of a whole-message parse records an error on every path of its Err arm, S3 the validation adapters give one verdict.", "§4 C12",
          "table extraction from resolved HIR match arms + bijection / equality check"),
- "C13": ("other", "S1 stop-flag discipline on every flag use in 30 validate_network_rules (+ callees receiving the flag), S2 purity / determinism of the MIR call-graph closure of validation, S3 adapters call (false), keep all errors, every exit of SwiftMessage::validate is built from that list with validity = is_empty(), S4 the accumulated list is append-only (no reorder / prune / mutable loan / re-assignment after the first append).", "§4 C13",
+ "C13": ("other", "S1 stop-flag discipline on every flag use in 30 validate_network_rules (+ callees receiving the flag), S2 purity / determinism of the MIR call-graph closure of validation, S3 adapters call (false), keep all errors (the plugin neither prunes nor reorders its list), every exit of SwiftMessage::validate is built from that list with validity = is_empty(), S4 the accumulated list is append-only (no reorder / prune / mutable loan / re-assignment after the first append).", "§4 C13",
          "control-dependence + effect analysis over HIR and the MIR call graph"),
  "C14": ("other", "O1 finite static evaluation of parse_with_variant on 28 argument classes per option enum, O2 heuristic returns the variant whose parser it ran, O3 call sites pass the detected letter and call no letterless parser, G5 emitted tag per variant, G7 detector coverage, G11/type the option enum standing at each message position = reference, U6/U7/E1 of the option enums and U6 of their variant payload parsers = reference. Stability for ambiguous contents is not decided.", "§4 C14",
          "finite-domain evaluation of match arms + def-use tracing over resolved HIR"),
